@@ -9,7 +9,7 @@ git -C /repo worktree add --detach $W HEAD >/dev/null 2>&1 || { echo "worktree f
 cleanup() { git -C /repo worktree remove --force $W >/dev/null 2>&1; rm -rf $W; }
 trap cleanup EXIT
 mkdir -p $W/_seeded; rsync -a --exclude "build*" --exclude "_build*" --exclude "*.o" --exclude "*.so" --exclude "__pycache__" --exclude "out_*" $SD/ $W/_seeded/ ; find $W/_seeded -type f -size +2M -delete
-sed -i "s#$ORIG#$W#g" $W/_seeded/*.sh $W/_seeded/*.cpp $W/_seeded/*.py 2>/dev/null
+grep -rlI "$ORIG" $W/_seeded 2>/dev/null | xargs -r sed -i "s#$ORIG#$W#g"
 build() { (cd $W && cmake -G Ninja -S . -B _build -DCMAKE_BUILD_TYPE=RelWithDebInfo -DCMAKE_CXX_FLAGS=-Wno-error >/dev/null 2>&1 && cmake --build _build -j16 >/dev/null 2>&1); }
 build || { echo "baseline build failed"; exit 2; }
 (cd $W/_seeded && bash ./run_demo.sh > $W/demo_base.log 2>&1); rc_base=$?
